@@ -118,7 +118,7 @@ def _gen(ctx, prop):
     return out
 
 
-L2_PROPS = {'C01': 160, 'C03': 120, 'C04': 80, 'C05': 100, 'C08': 100, 'C06': 120, 'C07': 40}
+L2_PROPS = {'C01': 160, 'C02': 120, 'C03': 120, 'C04': 80, 'C05': 100, 'C08': 100, 'C06': 120, 'C07': 40}
 
 
 def _l2_traces(ctx, prop, histories=None):
@@ -133,6 +133,23 @@ def _l2_traces(ctx, prop, histories=None):
         n = L2_PROPS[prop] * (1 if ctx.quick else 12)
         histories = [mcm.gen_random(mcm.SCENARIOS['base'], rng, rng.choice([8, 12, 16]))
                      for _ in range(n)]
+        if prop == 'C02':
+            # probe histories at master level: quiesce (two cycles), submit one instance, cycle
+            scn2 = mcm.SCENARIOS['base']
+            histories = []
+            for _ in range(n):
+                h = [x for x in mcm.gen_random(scn2, rng, rng.choice([4, 8, 12]))
+                     if x[0] not in ('CrashCycle', 'CrashRestart')]
+                used = {x[1][0] for x in h if x[0] == 'CreateApp'}
+                free = [a for a in scn2['apps'] if a not in used]
+                if not free:
+                    continue
+                h += [('Cycle', []), ('Cycle', []),
+                      ('Probe', [free[0], rng.randrange(len(scn2['aprofiles'])) + 1])]
+                histories.append(h)
+        if prop in ('C01', 'C03', 'C04', 'C08'):
+            histories += [mcm.gen_servers(mcm.SCENARIOS['base'], rng, rng.choice([5, 8, 12]))
+                          for _ in range(n // 2)]
         if prop == 'C05':
             histories += [mcm.gen_identity(mcm.SCENARIOS['base'], rng, rng.choice([4, 6, 9]))
                           for _ in range(n // 2)]
